@@ -96,6 +96,8 @@ pub struct InputMachine<'a> {
     /// index in `stack` of the file that executed the pending `\endinput` (to recognise "closed another file")
     force_eof_owner: Option<usize>,
     macros: HashMap<String, Vec<TokV>>,
+    /// tokens made equal to \relax by `\let<token>\relax` (unexpandable, do nothing)
+    relaxed: Vec<TokV>,
     group: i64,
     cond: i64,
     /// (group, cond) at the time each file was opened
@@ -115,6 +117,7 @@ impl<'a> InputMachine<'a> {
             force_eof: false,
             force_eof_owner: None,
             macros: HashMap::new(),
+            relaxed: vec![],
             group: 0,
             cond: 0,
             marks: vec![],
@@ -220,8 +223,13 @@ impl<'a> InputMachine<'a> {
                 None => return Ok(None),
                 Some(t) => t,
             };
+            if self.relaxed.contains(&t) {
+                return Ok(Some(t));
+            }
             let name = match &t {
                 TokV::Cs(n) => n.as_str(),
+                // an active character without a meaning is expanded by TeX (an error): not modelled
+                TokV::Ch(c, scan::ACTIVE_CHAR) => return Err(Stop::UnknownCs(c.to_string())),
                 _ => return Ok(Some(t)),
             };
             if let Some(body) = self.macros.get(name) {
@@ -239,7 +247,7 @@ impl<'a> InputMachine<'a> {
                 }
                 "endinput" => self.endinput(),
                 "input" => self.input()?,
-                "par" | "def" => return Ok(Some(t)),
+                "par" | "def" | "let" | "relax" => return Ok(Some(t)),
                 _ => return Err(Stop::UnknownCs(name.to_string())),
             }
         }
@@ -362,6 +370,7 @@ impl<'a> InputMachine<'a> {
                 Ok(Some(t)) => t,
             };
             match t {
+                t if self.relaxed.contains(&t) => {}
                 TokV::Ch(_, scan::LEFT_BRACE) => self.group += 1,
                 TokV::Ch(_, scan::RIGHT_BRACE) => {
                     if self.group == 0 {
@@ -377,6 +386,15 @@ impl<'a> InputMachine<'a> {
                         break;
                     }
                 }
+                // `\let<token>\relax` (no `=`): the only form of \let in the little language
+                TokV::Cs(n) if n == "let" => match (self.get_next(), self.get_next()) {
+                    (Some(a), Some(TokV::Cs(r))) if r == "relax" => self.relaxed.push(a),
+                    _ => {
+                        self.r.stop = Stop::BadDef;
+                        break;
+                    }
+                },
+                TokV::Cs(n) if n == "relax" => {}
                 // \par is a primitive (par_end, unexpandable); the harness VM has no meaning for it and shows it
                 TokV::Cs(n) if n == "par" => self.r.out.push_str("<undef \\par>"),
                 TokV::Cs(n) => {
